@@ -17,8 +17,8 @@ open Mjw
 
 /-! ### `_equality_connect__kernel`  (k = 3, guard `efcid + 3 > njmax_in`) -/
 section equality_connect
-variable {K : Type} [Scalar K] (nv : Int) (nsite : Int) (opt_timestep : (Int → K)) (opt_disableflags : Int) (body_parentid : (Int → Int)) (body_rootid : (Int → Int)) (body_weldid : (Int → Int)) (body_dofnum : (Int → Int)) (body_dofadr : (Int → Int)) (body_invweight0 : (Int → Int → V2 K)) (jnt_type : (Int → Int)) (jnt_dofadr : (Int → Int)) (dof_bodyid : (Int → Int)) (dof_jntid : (Int → Int)) (dof_parentid : (Int → Int)) (site_bodyid : (Int → Int)) (eq_obj1id : (Int → Int)) (eq_obj2id : (Int → Int)) (eq_objtype : (Int → Int)) (eq_solref : (Int → Int → V2 K)) (eq_solimp : (Int → Int → V5 K)) (eq_data : (Int → Int → V11 K)) (body_isdofancestor : (Int → Int → Int)) (eq_connect_adr : (Int → Int)) (qvel_in : (Int → Int → K)) (eq_active_in : (Int → Int → Bool)) (xpos_in : (Int → Int → V3 K)) (xmat_in : (Int → Int → M33 K)) (site_xpos_in : (Int → Int → V3 K)) (subtree_com_in : (Int → Int → V3 K)) (cdof_in : (Int → Int → V6 K)) (cvel_in : (Int → Int → V6 K)) (cdof_dot_in : (Int → Int → V6 K)) (subtree_linvel_in : (Int → Int → V3 K)) (njmax_in : Int) (njmax_nnz_in : Int) (ne_out : (Int → Int)) (nefc_out : (Int → Int)) (efc_type_out : (Int → Int → Int)) (efc_id_out : (Int → Int → Int)) (efc_jtdaj_adr_out : (Int → Int → Int)) (efc_jtdaj_nrow_out : (Int → Int → Int)) (efc_jtdaj_nblock_out : (Int → Int)) (efc_J_rownnz_out : (Int → Int → Int)) (efc_J_rowadr_out : (Int → Int → Int)) (efc_J_colind_out : (Int → Int → Int → Int)) (efc_J_out : (Int → Int → Int → K)) (efc_pos_out : (Int → Int → K)) (efc_margin_out : (Int → Int → K)) (efc_D_out : (Int → Int → K)) (efc_vel_out : (Int → Int → K)) (efc_aref_out : (Int → Int → K)) (efc_frictionloss_out : (Int → Int → K)) (efc_nnz_out : (Int → Int)) (alloc0 : Int) (st_is_sparse_and_newton : Bool) (alloc1 : Int) (eq_data_shape0 : Int) (st_is_sparse : Bool) (alloc2 : Int) (body_invweight0_shape0 : Int) (eq_solref_shape0 : Int) (eq_solimp_shape0 : Int) (opt_timestep_shape0 : Int) (fuel : Nat) (tid0 : Int) (tid1 : Int)
-local notation "KW" => Gen.Constraint._equality_connect__kernel nv nsite opt_timestep opt_disableflags body_parentid body_rootid body_weldid body_dofnum body_dofadr body_invweight0 jnt_type jnt_dofadr dof_bodyid dof_jntid dof_parentid site_bodyid eq_obj1id eq_obj2id eq_objtype eq_solref eq_solimp eq_data body_isdofancestor eq_connect_adr qvel_in eq_active_in xpos_in xmat_in site_xpos_in subtree_com_in cdof_in cvel_in cdof_dot_in subtree_linvel_in njmax_in njmax_nnz_in ne_out nefc_out efc_type_out efc_id_out efc_jtdaj_adr_out efc_jtdaj_nrow_out efc_jtdaj_nblock_out efc_J_rownnz_out efc_J_rowadr_out efc_J_colind_out efc_J_out efc_pos_out efc_margin_out efc_D_out efc_vel_out efc_aref_out efc_frictionloss_out efc_nnz_out alloc0 st_is_sparse_and_newton alloc1 eq_data_shape0 st_is_sparse alloc2 body_invweight0_shape0 eq_solref_shape0 eq_solimp_shape0 opt_timestep_shape0 fuel tid0 tid1
+variable {K : Type} [Scalar K] (nv : Int) (nsite : Int) (opt_timestep : (Int → K)) (opt_disableflags : Int) (body_parentid : (Int → Int)) (body_rootid : (Int → Int)) (body_weldid : (Int → Int)) (body_dofnum : (Int → Int)) (body_dofadr : (Int → Int)) (body_invweight0 : (Int → Int → V2 K)) (jnt_type : (Int → Int)) (jnt_dofadr : (Int → Int)) (dof_bodyid : (Int → Int)) (dof_jntid : (Int → Int)) (dof_parentid : (Int → Int)) (site_bodyid : (Int → Int)) (eq_obj1id : (Int → Int)) (eq_obj2id : (Int → Int)) (eq_objtype : (Int → Int)) (eq_solref : (Int → Int → V2 K)) (eq_solimp : (Int → Int → V5 K)) (eq_data : (Int → Int → V11 K)) (body_isdofancestor : (Int → Int → Int)) (eq_connect_adr : (Int → Int)) (qvel_in : (Int → Int → K)) (eq_active_in : (Int → Int → Bool)) (xpos_in : (Int → Int → V3 K)) (xmat_in : (Int → Int → M33 K)) (site_xpos_in : (Int → Int → V3 K)) (subtree_com_in : (Int → Int → V3 K)) (cdof_in : (Int → Int → V6 K)) (cvel_in : (Int → Int → V6 K)) (cdof_dot_in : (Int → Int → V6 K)) (subtree_linvel_in : (Int → Int → V3 K)) (njmax_in : Int) (njmax_nnz_in : Int) (ne_out : (Int → Int)) (nefc_out : (Int → Int)) (efc_type_out : (Int → Int → Int)) (efc_id_out : (Int → Int → Int)) (efc_jtdaj_adr_out : (Int → Int → Int)) (efc_jtdaj_nrow_out : (Int → Int → Int)) (efc_jtdaj_nblock_out : (Int → Int)) (efc_J_rownnz_out : (Int → Int → Int)) (efc_J_rowadr_out : (Int → Int → Int)) (efc_J_colind_out : (Int → Int → Int → Int)) (efc_J_out : (Int → Int → Int → K)) (efc_pos_out : (Int → Int → K)) (efc_margin_out : (Int → Int → K)) (efc_D_out : (Int → Int → K)) (efc_vel_out : (Int → Int → K)) (efc_aref_out : (Int → Int → K)) (efc_frictionloss_out : (Int → Int → K)) (efc_nnz_out : (Int → Int)) (alloc0 : Int) (st_is_sparse_and_newton : Bool) (alloc1 : Int) (eq_data_shape0 : Int) (body_invweight0_shape0 : Int) (st_is_sparse : Bool) (alloc2 : Int) (eq_solref_shape0 : Int) (eq_solimp_shape0 : Int) (opt_timestep_shape0 : Int) (fuel : Nat) (tid0 : Int) (tid1 : Int)
+local notation "KW" => Gen.Constraint._equality_connect__kernel nv nsite opt_timestep opt_disableflags body_parentid body_rootid body_weldid body_dofnum body_dofadr body_invweight0 jnt_type jnt_dofadr dof_bodyid dof_jntid dof_parentid site_bodyid eq_obj1id eq_obj2id eq_objtype eq_solref eq_solimp eq_data body_isdofancestor eq_connect_adr qvel_in eq_active_in xpos_in xmat_in site_xpos_in subtree_com_in cdof_in cvel_in cdof_dot_in subtree_linvel_in njmax_in njmax_nnz_in ne_out nefc_out efc_type_out efc_id_out efc_jtdaj_adr_out efc_jtdaj_nrow_out efc_jtdaj_nblock_out efc_J_rownnz_out efc_J_rowadr_out efc_J_colind_out efc_J_out efc_pos_out efc_margin_out efc_D_out efc_vel_out efc_aref_out efc_frictionloss_out efc_nnz_out alloc0 st_is_sparse_and_newton alloc1 eq_data_shape0 body_invweight0_shape0 st_is_sparse alloc2 eq_solref_shape0 eq_solimp_shape0 opt_timestep_shape0 fuel tid0 tid1
 
 set_option maxHeartbeats 1600000 in
 theorem equality_connect_safe : AllW (RowSafe tid0 alloc0 (alloc0 + 3) njmax_in st_is_sparse) KW := by
@@ -51,8 +51,8 @@ end equality_connect
 
 /-! ### `_equality_weld__kernel`  (k = 6, guard `efcid + 6 > njmax_in`) -/
 section equality_weld
-variable {K : Type} [Scalar K] (nv : Int) (nsite : Int) (opt_timestep : (Int → K)) (opt_disableflags : Int) (body_parentid : (Int → Int)) (body_rootid : (Int → Int)) (body_weldid : (Int → Int)) (body_dofnum : (Int → Int)) (body_dofadr : (Int → Int)) (body_invweight0 : (Int → Int → V2 K)) (jnt_type : (Int → Int)) (jnt_dofadr : (Int → Int)) (dof_bodyid : (Int → Int)) (dof_jntid : (Int → Int)) (dof_parentid : (Int → Int)) (site_bodyid : (Int → Int)) (site_quat : (Int → Int → Q K)) (eq_obj1id : (Int → Int)) (eq_obj2id : (Int → Int)) (eq_objtype : (Int → Int)) (eq_solref : (Int → Int → V2 K)) (eq_solimp : (Int → Int → V5 K)) (eq_data : (Int → Int → V11 K)) (body_isdofancestor : (Int → Int → Int)) (eq_wld_adr : (Int → Int)) (qvel_in : (Int → Int → K)) (eq_active_in : (Int → Int → Bool)) (xpos_in : (Int → Int → V3 K)) (xquat_in : (Int → Int → Q K)) (xmat_in : (Int → Int → M33 K)) (site_xpos_in : (Int → Int → V3 K)) (subtree_com_in : (Int → Int → V3 K)) (cdof_in : (Int → Int → V6 K)) (cvel_in : (Int → Int → V6 K)) (cdof_dot_in : (Int → Int → V6 K)) (subtree_linvel_in : (Int → Int → V3 K)) (njmax_in : Int) (njmax_nnz_in : Int) (ne_out : (Int → Int)) (nefc_out : (Int → Int)) (efc_type_out : (Int → Int → Int)) (efc_id_out : (Int → Int → Int)) (efc_jtdaj_adr_out : (Int → Int → Int)) (efc_jtdaj_nrow_out : (Int → Int → Int)) (efc_jtdaj_nblock_out : (Int → Int)) (efc_J_rownnz_out : (Int → Int → Int)) (efc_J_rowadr_out : (Int → Int → Int)) (efc_J_colind_out : (Int → Int → Int → Int)) (efc_J_out : (Int → Int → Int → K)) (efc_pos_out : (Int → Int → K)) (efc_margin_out : (Int → Int → K)) (efc_D_out : (Int → Int → K)) (efc_vel_out : (Int → Int → K)) (efc_aref_out : (Int → Int → K)) (efc_frictionloss_out : (Int → Int → K)) (efc_nnz_out : (Int → Int)) (alloc0 : Int) (st_is_sparse_and_newton : Bool) (alloc1 : Int) (eq_data_shape0 : Int) (site_quat_shape0 : Int) (st_is_sparse : Bool) (alloc2 : Int) (body_invweight0_shape0 : Int) (eq_solref_shape0 : Int) (eq_solimp_shape0 : Int) (opt_timestep_shape0 : Int) (fuel : Nat) (tid0 : Int) (tid1 : Int)
-local notation "KW" => Gen.Constraint._equality_weld__kernel nv nsite opt_timestep opt_disableflags body_parentid body_rootid body_weldid body_dofnum body_dofadr body_invweight0 jnt_type jnt_dofadr dof_bodyid dof_jntid dof_parentid site_bodyid site_quat eq_obj1id eq_obj2id eq_objtype eq_solref eq_solimp eq_data body_isdofancestor eq_wld_adr qvel_in eq_active_in xpos_in xquat_in xmat_in site_xpos_in subtree_com_in cdof_in cvel_in cdof_dot_in subtree_linvel_in njmax_in njmax_nnz_in ne_out nefc_out efc_type_out efc_id_out efc_jtdaj_adr_out efc_jtdaj_nrow_out efc_jtdaj_nblock_out efc_J_rownnz_out efc_J_rowadr_out efc_J_colind_out efc_J_out efc_pos_out efc_margin_out efc_D_out efc_vel_out efc_aref_out efc_frictionloss_out efc_nnz_out alloc0 st_is_sparse_and_newton alloc1 eq_data_shape0 site_quat_shape0 st_is_sparse alloc2 body_invweight0_shape0 eq_solref_shape0 eq_solimp_shape0 opt_timestep_shape0 fuel tid0 tid1
+variable {K : Type} [Scalar K] (nv : Int) (nsite : Int) (opt_timestep : (Int → K)) (opt_disableflags : Int) (body_parentid : (Int → Int)) (body_rootid : (Int → Int)) (body_weldid : (Int → Int)) (body_dofnum : (Int → Int)) (body_dofadr : (Int → Int)) (body_invweight0 : (Int → Int → V2 K)) (jnt_type : (Int → Int)) (jnt_dofadr : (Int → Int)) (dof_bodyid : (Int → Int)) (dof_jntid : (Int → Int)) (dof_parentid : (Int → Int)) (site_bodyid : (Int → Int)) (site_quat : (Int → Int → Q K)) (eq_obj1id : (Int → Int)) (eq_obj2id : (Int → Int)) (eq_objtype : (Int → Int)) (eq_solref : (Int → Int → V2 K)) (eq_solimp : (Int → Int → V5 K)) (eq_data : (Int → Int → V11 K)) (body_isdofancestor : (Int → Int → Int)) (eq_wld_adr : (Int → Int)) (qvel_in : (Int → Int → K)) (eq_active_in : (Int → Int → Bool)) (xpos_in : (Int → Int → V3 K)) (xquat_in : (Int → Int → Q K)) (xmat_in : (Int → Int → M33 K)) (site_xpos_in : (Int → Int → V3 K)) (subtree_com_in : (Int → Int → V3 K)) (cdof_in : (Int → Int → V6 K)) (cvel_in : (Int → Int → V6 K)) (cdof_dot_in : (Int → Int → V6 K)) (subtree_linvel_in : (Int → Int → V3 K)) (njmax_in : Int) (njmax_nnz_in : Int) (ne_out : (Int → Int)) (nefc_out : (Int → Int)) (efc_type_out : (Int → Int → Int)) (efc_id_out : (Int → Int → Int)) (efc_jtdaj_adr_out : (Int → Int → Int)) (efc_jtdaj_nrow_out : (Int → Int → Int)) (efc_jtdaj_nblock_out : (Int → Int)) (efc_J_rownnz_out : (Int → Int → Int)) (efc_J_rowadr_out : (Int → Int → Int)) (efc_J_colind_out : (Int → Int → Int → Int)) (efc_J_out : (Int → Int → Int → K)) (efc_pos_out : (Int → Int → K)) (efc_margin_out : (Int → Int → K)) (efc_D_out : (Int → Int → K)) (efc_vel_out : (Int → Int → K)) (efc_aref_out : (Int → Int → K)) (efc_frictionloss_out : (Int → Int → K)) (efc_nnz_out : (Int → Int)) (alloc0 : Int) (st_is_sparse_and_newton : Bool) (alloc1 : Int) (eq_data_shape0 : Int) (site_quat_shape0 : Int) (body_invweight0_shape0 : Int) (st_is_sparse : Bool) (alloc2 : Int) (eq_solref_shape0 : Int) (eq_solimp_shape0 : Int) (opt_timestep_shape0 : Int) (fuel : Nat) (tid0 : Int) (tid1 : Int)
+local notation "KW" => Gen.Constraint._equality_weld__kernel nv nsite opt_timestep opt_disableflags body_parentid body_rootid body_weldid body_dofnum body_dofadr body_invweight0 jnt_type jnt_dofadr dof_bodyid dof_jntid dof_parentid site_bodyid site_quat eq_obj1id eq_obj2id eq_objtype eq_solref eq_solimp eq_data body_isdofancestor eq_wld_adr qvel_in eq_active_in xpos_in xquat_in xmat_in site_xpos_in subtree_com_in cdof_in cvel_in cdof_dot_in subtree_linvel_in njmax_in njmax_nnz_in ne_out nefc_out efc_type_out efc_id_out efc_jtdaj_adr_out efc_jtdaj_nrow_out efc_jtdaj_nblock_out efc_J_rownnz_out efc_J_rowadr_out efc_J_colind_out efc_J_out efc_pos_out efc_margin_out efc_D_out efc_vel_out efc_aref_out efc_frictionloss_out efc_nnz_out alloc0 st_is_sparse_and_newton alloc1 eq_data_shape0 site_quat_shape0 body_invweight0_shape0 st_is_sparse alloc2 eq_solref_shape0 eq_solimp_shape0 opt_timestep_shape0 fuel tid0 tid1
 
 set_option maxHeartbeats 1600000 in
 theorem equality_weld_safe : AllW (RowSafe tid0 alloc0 (alloc0 + 6) njmax_in st_is_sparse) KW := by
